@@ -2,7 +2,7 @@
    outputs contain digests (C30: hashed path components).  Words are N < 2^32.
    Nothing is proved about the function here except the shape of its hex rendering;
    collision freedom is always an explicit hypothesis of the theorems that need it. *)
-From Coq Require Import List NArith Bool Lia.
+From Coq Require Import List NArith Bool Lia Arith PeanoNat.
 Import ListNotations.
 Local Open Scope N_scope.
 
@@ -96,3 +96,49 @@ Definition hexdigit (x : N) : N := if x <? 10 then 48 + x else 87 + x.
 Definition hex (bs : list N) : list N := flat_map (fun b => [hexdigit (N.shiftr b 4); hexdigit (N.land b 15)]) bs.
 
 Definition sha256_hex (msg : list N) : list N := hex (sha256 msg).
+
+(* ------------------------------------------------------------------ *)
+(* shape of the output: 32 octets, hence 64 lower-case hex digits *)
+
+Lemma round_length : forall st kw, length (round st kw) = length st.
+Proof.
+  intros st kw. unfold round.
+  destruct st as [|a [|b [|c [|d [|e [|f [|g [|h [|i r]]]]]]]]]; reflexivity.
+Qed.
+
+Lemma fold_round_length : forall l st, length (fold_left round l st) = length st.
+Proof. induction l as [|x l IH]; intros st; [reflexivity|]. cbn [fold_left]. rewrite IH. apply round_length. Qed.
+
+Lemma compress_length : forall h b, length (compress h b) = length h.
+Proof.
+  intros h b. unfold compress. rewrite map_length, combine_length, fold_round_length. apply Nat.min_id.
+Qed.
+
+Lemma blocks_length : forall fuel ws h, length (blocks fuel ws h) = length h.
+Proof.
+  induction fuel as [|f IH]; intros ws h; [reflexivity|]. cbn [blocks].
+  destruct ws; [reflexivity|]. rewrite IH. apply compress_length.
+Qed.
+
+Lemma be_bytes_length : forall n x, length (be_bytes n x) = n.
+Proof. induction n as [|n IH]; intros x; [reflexivity|]. cbn [be_bytes]. rewrite app_length, IH. cbn [length]. lia. Qed.
+
+Lemma be_bytes_small : forall n x, Forall (fun b => b < 256) (be_bytes n x).
+Proof.
+  induction n as [|n IH]; intros x; [constructor|]. cbn [be_bytes]. apply Forall_app. split; [apply IH|].
+  constructor; [|constructor]. change 255 with (N.ones 8). rewrite N.land_ones. apply N.mod_lt. discriminate.
+Qed.
+
+Lemma sha256_nonempty : forall msg, sha256 msg <> [].
+Proof.
+  intros msg. unfold sha256.
+  set (h := blocks _ _ H0). assert (Hl : length h = 8%nat) by (unfold h; rewrite blocks_length; reflexivity).
+  destruct h as [|w h']; [discriminate|]. cbn [flat_map].
+  pose proof (be_bytes_length 4 w). destruct (be_bytes 4 w); [discriminate | discriminate].
+Qed.
+
+Lemma sha256_small : forall msg, Forall (fun b => b < 256) (sha256 msg).
+Proof.
+  intros msg. unfold sha256. set (h := blocks _ _ H0). clearbody h.
+  induction h as [|w h IH]; [constructor|]. cbn [flat_map]. apply Forall_app. split; [apply be_bytes_small | exact IH].
+Qed.
